@@ -88,6 +88,9 @@ type vLsConn struct {
 	state int // 0 not started, 1 handling, 2 handed over, 3 done
 	got   []byte
 	tag   byte
+	// made by Wrap from another connection: starts without a buffer, never returns anything to
+	// the pool itself, but is matched (prefetched) again like a connection behind a tls handler
+	wrapped bool
 }
 
 func vLockstep(r *vRng, kind int) (coq string, nontrivial bool, cls string) {
@@ -115,7 +118,7 @@ func vLockstep(r *vRng, kind int) (coq string, nontrivial bool, cls string) {
 		conns[i] = &vLsConn{id: i + 1, sc: &vScriptConn{}, tag: byte('A' + i)}
 	}
 	var evs []string
-	reuse, grew, late := false, false, false
+	reuse, grew, late, forked := false, false, false, false
 	steps := 12 + r.Intn(40)
 	for s := 0; s < steps; s++ {
 		c := conns[r.Intn(n)]
@@ -134,9 +137,18 @@ func vLockstep(r *vRng, kind int) (coq string, nontrivial bool, cls string) {
 			c.state = 1
 			evs = append(evs, fmt.Sprintf("ZGet %d %s", c.id, kOf(i)))
 		case 1, 2:
+			if c.state == 1 && !c.wrapped && len(conns) < 8 && r.Intn(10) == 0 {
+				w := &vLsConn{id: len(conns) + 1, sc: &vScriptConn{}, state: 2, wrapped: true}
+				w.cx = c.cx.Wrap(w.sc)
+				conns = append(conns, w)
+				n = len(conns)
+				forked = true
+				evs = append(evs, fmt.Sprintf("ZFork %d %d", c.id, w.id))
+				continue
+			}
 			op := r.Intn(10)
 			switch {
-			case op < 4 && c.state == 1: // prefetch
+			case op < 4 && (c.state == 1 || c.wrapped): // prefetch
 				var ln int
 				switch r.Intn(12) {
 				case 0:
@@ -231,7 +243,7 @@ func vLockstep(r *vRng, kind int) (coq string, nontrivial bool, cls string) {
 	for _, c := range conns {
 		seen = append(seen, fmt.Sprintf("(%d, %s)", c.id, vRle(c.got)))
 	}
-	cls = fmt.Sprintf("lockstep/kind%d/reuse=%v/grew=%v/late=%v", kind, reuse, grew, late)
+	cls = fmt.Sprintf("lockstep/kind%d/reuse=%v/grew=%v/late=%v/wrapped=%v", kind, reuse, grew, late, forked)
 	return fmt.Sprintf("CPool %d [%s] [%s]", kind, strings.Join(evs, "; "), strings.Join(seen, "; ")), reuse, cls
 }
 
@@ -356,7 +368,11 @@ var vStressKinds = []byte{'A', 'W', 'B', 'Z', 'W', 'A'}
 
 func vStressClient(cl net.Conn, st []byte) {
 	_ = cl.SetWriteDeadline(time.Now().Add(8 * time.Second))
-	if _, err := cl.Write(st[:4]); err == nil {
+	if len(st) > prefetchChunkSize {
+		// one write: the first prefetch fills the pooled chunk exactly (len == cap), the rest stays
+		// in the socket until the handler / the wrapped listener's consumer reads it
+		_, _ = cl.Write(st)
+	} else if _, err := cl.Write(st[:4]); err == nil {
 		time.Sleep(100 * time.Microsecond)
 		_, _ = cl.Write(st[4:])
 	}
@@ -494,8 +510,22 @@ func vStressListener(procs, nconn, ln int, r *vRng) vStressRes {
 	}
 	var accepted []acc
 	bases := map[*byte]int{}
+	type ares struct {
+		c   net.Conn
+		err error
+	}
 	for len(accepted) < nconn {
-		c, err := ln2.Accept()
+		// a connection that is not handed over (wrong verdict, matching failure) must not hang the run
+		ach := make(chan ares, 1)
+		go func() { c, err := ln2.Accept(); ach <- ares{c, err} }()
+		var c net.Conn
+		var err error
+		select {
+		case a := <-ach:
+			c, err = a.c, a.err
+		case <-time.After(6 * time.Second):
+			err = fmt.Errorf("no further connection handed over")
+		}
 		if err != nil {
 			break
 		}
